@@ -48,6 +48,8 @@ Variants(c) ==
   IF c.call = "write"
   THEN {[call |-> c.seq, kind |-> k, prefix |-> p, syncApplied |-> FALSE] :
             k \in {"transient", "persistent"}, p \in {-1, 8 * ((c.nbytes \div 8) \div 2), 1000000}}
+  ELSE IF c.call = "create"      \* the creation fails cleanly, or after the file appeared (preallocation failed): prefix 0
+  THEN {[call |-> c.seq, kind |-> k, prefix |-> p, syncApplied |-> FALSE] : k \in {"transient", "persistent"}, p \in {-1, 0}}
   ELSE IF c.call = "sync"
   THEN {[call |-> c.seq, kind |-> k, prefix |-> -1, syncApplied |-> a] : k \in {"transient", "persistent"}, a \in BOOLEAN}
   ELSE {[call |-> c.seq, kind |-> k, prefix |-> -1, syncApplied |-> FALSE] : k \in {"transient", "persistent"}}
